@@ -234,6 +234,10 @@ pub fn finish_report(ex: Exec, mut report: RunReport, sc: &Scenario, final_diges
   report.faults.insert("reopen".into(), ex.reopens);
   let sim = ex.finish();
   sim.snapshot(|s| {
+    if let (Some(dir), Some(log)) = (std::env::var_os("ORDSIM_TRACE_DIR"), &s.trace_log) {
+      let path = std::path::Path::new(&dir).join(format!("{}-{}.trace", report.property, sc.seed));
+      std::fs::write(path, log.join("\n")).ok();
+    }
     report.trace = s.trace;
     report.trace_len = s.trace_len;
     report.sim_ms = s.clock_ms;
